@@ -42,6 +42,9 @@ def draw(rng, index):
             "available_vms": {vm: f"only {d['variants'][0]}\n" for vm, d in spec["vms"].items()},
             "vm_strs": {vm: f"only {spec['vms'][vm]['variants'][0]}\n" for vm in selected},
             "plan": {"dur_mode": rng.choice(["short", "tied", "heavy"]), "dur_seed": index, "by_class": {}}, "ignore_requirements": True, "pairs": {}}
+    if all(n.startswith("net") for n in nets.split()) and nets != "net0" and rng.random() < 0.25:
+        # isolated state pools: every worker has to bring its own copy of the vm up to date
+        case["params"] = {"pool_scope": rng.choice(["own", "own shared"])}
     invalid = rng.random() < 0.18
     remove_set = rng.choice([None, None, "leaves", "normal"] + suitegen.leaf_names(spec)[:1])
     case["remove_set"] = remove_set or "leaves"
@@ -158,7 +161,21 @@ def judge(case, record):
                 continue
             executed[base.replace("internal.automated.", "").replace("original.install", "install")] += 1
         expected_counter = collections.Counter(path)
-        if set(executed) != set(expected_counter):
+        per_worker = "swarm" not in case.get("params", {}).get("pool_scope", "swarm").split()
+        if per_worker:
+            # no sharing between the (lxc) workers: each of them executes the path once for its own pool
+            counters["vm_paths_compared_per_worker"] += 1
+            for worker in workers:
+                own = collections.Counter()
+                for e in mine:
+                    base = e["cls"].split(".vms.")[0]
+                    if e["w"] == worker and not base.startswith("internal.stateless.noop"):
+                        own[base.replace("internal.automated.", "").replace("original.install", "install")] += 1
+                if dict(own) != dict(expected_counter):
+                    problems.append(("with isolated pools a worker did not execute exactly the path between the two states",
+                                     f"{vm} {case['pairs'][vm]} on {worker}: executed {dict(own)} expected path {path}"))
+                    break
+        elif set(executed) != set(expected_counter):
             missing, spurious = sorted(set(expected_counter) - set(executed)), sorted(set(executed) - set(expected_counter))
             problems.append(("executed setup tests differ from the path between the two states" +
                              (" (missing)" if missing else "") + (" (spurious)" if spurious else ""),
